@@ -235,3 +235,21 @@ Theorem C01_iter_is_source : forall fuel inp t, (length inp + 2 < fuel)%nat ->
                map (ImpProofsJ.fa_item t) (Bio.Model.Fasta.decode inp t)).
 Proof. exact ImpProofsJ.imp_fasta_iter. Qed.
 Print Assumptions C01_iter_is_source.
+
+(* MarshalText as translated (the length formula, Write into a bytes.Buffer, the panic on a
+   length mismatch) is the model's marshal_text. *)
+Theorem C01_marshal_is_source : forall fuel r, (length (Bio.Model.Fasta.seq r) < fuel)%nat ->
+  ImpGen.imp_fasta_Fasta_MarshalText fuel (ImpProofsG.fa_of r)
+  = match Bio.Model.Fasta.marshal_text r with Ok b => GoSem.Ret (b, false) | _ => GoSem.Panics end.
+Proof. exact ImpProofsG.imp_Fasta_MarshalText. Qed.
+Print Assumptions C01_marshal_is_source.
+
+(* Reader(r) as translated (newReader(r).iter() ranged over and forwarded) yields the model's
+   decode; with C01_iter_is_source and C01_read_is_source this is the whole reading path from
+   the bytes of the stream to the items, translated from fasta.go and iter.go. *)
+Theorem C01_reader_is_source : forall fuel inp t, (length inp + 2 < fuel)%nat ->
+  ImpGen.imp_fastard_Reader fuel (GoSem.Stream inp (ImpProofsJ.term_code t) None)
+  = GoSem.Ret (GoSem.Stream [] (ImpProofsJ.term_code t) None,
+               map (ImpProofsJ.fa_item t) (Bio.Model.Fasta.decode inp t)).
+Proof. exact ImpProofsJ.imp_fasta_Reader. Qed.
+Print Assumptions C01_reader_is_source.
